@@ -45,15 +45,17 @@ RULES = {
     "C14-T1": "generated face tables: no repeated face, no face with a repeated vertex, each directed edge at most once (consistent "
               "orientation); closed shapes: each undirected edge exactly twice; open shapes: at most twice with one border loop "
               "(disks) or two (annuli); one connected component; a volume cell is a permutation of all vertices; vector_field links "
-              "vertex 2i with 2i+1",
+              "vertex 2i with 2i+1; a generator working on a caller-supplied surface never reverses a face on the sign of "
+              "dot(p - centroid of the input, normal) (valid on star-shaped inputs only)",
     "C14-P1": "a variable passed positionally to a package function never lands in a *defaulted* parameter of another name while "
               "the callee has a parameter of the variable's own name",
     "C14-Q1": "corner arithmetic of quad / hexahedron_4pts / axis_aligned_cube (read off the generated vertices): every corner is an "
               "affine combination (weights sum to 1) of the given points, the requested corners are among them, a face taken in face "
               "order is a parallelogram (alternating corner sum 0) and the top face of the box is the bottom face translated",
     "C14-A1": "a full turn `2*pi*x/T` in a closed generator (or a helper it calls) is divided by the trip count of the loop / "
-              "comprehension variable x it multiplies (otherwise the seam does not close when the two resolutions differ); flat_ring: "
-              "consecutive rim points are (2*pi - defect)/N apart (N wedges span one turn minus the defect for any number of coverings)",
+              "comprehension variable x it multiplies (otherwise the seam does not close when the two resolutions differ); ring / flat_ring "
+              "(rim possibly generated by a private helper): consecutive rim points are 2*pi/N resp. (2*pi - defect)/N apart (N sectors span "
+              "one turn, minus the defect for the flat ring, for any number of coverings)",
     "C14-W1": "chain_of_vertices: `loop=True` yields the cycle over all vertices, `loop=False` the open path (generated edge tables)",
     "C14-R1": "ring: the apex-height search can reach every admissible angle defect: either a loop has an update that moves the "
               "upper bracket end outside the current bracket (not a convex combination of the two ends), taken when the target exceeds "
@@ -69,7 +71,9 @@ RULES = {
               "object itself (every caller gets its own mesh); a redundant copy is never a violation",
     "C14-D1": "vertex coordinates of the sphere / torus / cylinder generators (and of spherify_vertices / cylindrify_edges) have "
               "length-degree 1, sums are homogeneous, the result is translated by the centre (affine weight 1) and depends on "
-              "every radius / centre / end-point parameter",
+              "every radius / centre / end-point parameter; rows of one array are translated together (no store through a proper slice that "
+              "moves only a part of them); a direction is the normalisation of an offset from the centre, never of a position "
+              "(x / |x| with x of affine weight 1 depends on the origin)",
 }
 
 ASSUMPTIONS = [
@@ -202,6 +206,7 @@ def run(ctx):
     guarded(ctx, "C14-R1", RINGS, "apex search of ring", r1_ring_bracket)
     guarded(ctx, "C14-U1", SHAPES, "unit directions", u1_unit_directions)
     guarded(ctx, "C14-M1", SHAPES, "shared state", m1_shared_state)
+    guarded(ctx, "C14-T1", "procedural.dual", "orientation tests", t1_orientation_test)
     ctx.declare_unsupported("connectivity clauses (C14-N1/T1/C1/S1/W1) are decided for integer parameters in [min, min+3] only (bounded evaluation)")
     ctx.declare_unsupported("unit_triangle: only resolutions nu >= nv are analysed (for nu < nv the rows cannot hold 1..nv vertices: declared inadmissible)")
     ctx.declare_unsupported("sphere_fibonacci: connectivity comes from scipy ConvexHull (only C14-D1 / C14-U1 on the coordinates)")
@@ -255,7 +260,11 @@ def dim_obligations(ctx, rule, key, fn, it, geo, require=None):
     need_aff = any(Fraction(a) == 1 for d, a in geo.values())
     for node, kind, detail in it.events:
         n += 1
-        if kind == "inhomogeneous-sum":
+        if kind == "position-normalised":
+            ctx.fail(rule, ctx.site(key[0], fn, node), "a direction is obtained by normalising a position instead of an offset from the centre",
+                     f"`{au.src(node)[:120]}` normalises `{detail}`, which moves with the centre (affine weight 1): the direction depends on where the "
+                     f"origin is, the produced points are not the radial projection from the centre (moving the centre by t does not move them by t)")
+        elif kind == "inhomogeneous-sum":
             ctx.fail(rule, ctx.site(key[0], fn, node),
                      f"a term of length-degree {D.fmt_deg(detail[0])} is added to a term of degree {D.fmt_deg(detail[1])}",
                      f"`{au.src(node)}` is not homogeneous: scaling all lengths (radius, centre, box) by s does not scale the result by s")
@@ -899,14 +908,20 @@ def _to_rat(e, atom):
 
 
 def a1_flat_ring_wedge(ctx):
-    """flat_ring(N, defect, n_cover): N consecutive wedges span one turn minus the defect - the angle between two consecutive rim
-    points is (2*pi - defect)/N, whatever the number of coverings"""
+    """rings with several coverings: N consecutive sectors span one turn (ring: the rim lies in the plane, the defect comes from the
+    apex) or one turn minus the defect (flat_ring), whatever the number of coverings - consecutive rim points are 2*pi/N resp.
+    (2*pi - defect)/N apart.  The rim may be generated by a private helper."""
+    _wedge(ctx, "ring", flat=False)
+    _wedge(ctx, "flat_ring", flat=True)
+
+
+def _wedge(ctx, gname, flat):
     from ..rules import hi_flow as F
-    fn = ctx.repo.func(RINGS, "flat_ring")
+    fn = ctx.repo.func(RINGS, gname)
     site = ctx.site(RINGS, fn)
     ps = au.params(fn)
     if len(ps) < 2:
-        ctx.declare_unsupported("flat_ring: wedge angle not analysed (signature changed)")
+        ctx.declare_unsupported(f"{gname}: wedge angle not analysed (signature changed)")
         return
     n_p, d_p = ps[0], ps[1]
     mod = ctx.repo.module(RINGS)
@@ -927,15 +942,26 @@ def a1_flat_ring_wedge(ctx):
             return "⟨step⟩"
         return None
     verdicts = []
-    for c in au.calls(fn):
-        t = au.call_tail(c)
-        if t in ("rotate_2d",) and len(c.args) >= 2:
-            ang = c.args[1]
-        elif t in ("cos", "sin") and len(c.args) == 1:
-            ang = c.args[0]
-        else:
-            continue
-        r = fl.resolve(ang, at=c, keep=(n_p, d_p) + tuple(ps[2:]))
+    keep = (n_p, d_p) + tuple(ps[2:])
+
+    def angles(tree):
+        for c in ast.walk(tree):
+            if isinstance(c, ast.Call):
+                t = au.call_tail(c)
+                if t in ("rotate_2d",) and len(c.args) >= 2:
+                    yield c, c.args[1]
+                elif t in ("cos", "sin") and len(c.args) == 1:
+                    yield c, c.args[0]
+    sources, seen = [], set()
+    for c, ang in angles(fn):
+        sources.append((c, fl.resolve(ang, at=c, keep=keep)))
+    for hc in au.calls(fn):
+        if F.helper_key(hc) in fl.helpers:            # the rim generated by a private helper: its angles in the caller's terms
+            for c, ang in angles(fl.resolve(hc, at=hc, keep=keep)):
+                if au.norm(ang) not in seen:
+                    seen.add(au.norm(ang))
+                    sources.append((hc, ang))
+    for c, r in sources:
 
         class Tau(ast.NodeTransformer):        # tau = 2*pi
             def visit_Name(self, node):
@@ -947,7 +973,7 @@ def a1_flat_ring_wedge(ctx):
                     return ast.BinOp(ast.Constant(2), ast.Mult(), ast.Name("pi", ast.Load()))
                 return node
         q = _to_rat(Tau().visit(F.clone(r)), atom)
-        if q is None or d_p not in (q.num.atoms() | q.den.atoms()):
+        if q is None or "pi" not in q.num.atoms() or (flat and d_p not in (q.num.atoms() | q.den.atoms())):
             continue
         # direct evaluation at step k (angle = k * wedge) or iterated rotation by the wedge
         if "⟨step⟩" in q.num.atoms():
@@ -957,18 +983,86 @@ def a1_flat_ring_wedge(ctx):
         else:
             wedge = q
         pi_ = Poly.atom("pi")
-        want = D.Rat(pi_.scale(2) - Poly.atom(d_p), Poly.atom(n_p))
+        want = D.Rat(pi_.scale(2) - (Poly.atom(d_p) if flat else Poly()), Poly.atom(n_p))
         diff = wedge - want
         verdicts.append((c, wedge, diff.num.is_zero()))
+    wanted = f"(2*pi - {d_p})/{n_p}" if flat else f"2*pi/{n_p}"
     if not verdicts:
-        ctx.declare_unsupported("flat_ring: the angle between consecutive rim points is not found as an arithmetic form of pi, defect and N "
-                                "(wedge angle not decided)")
+        ctx.declare_unsupported(f"{gname}: the angle between consecutive rim points is not found as an arithmetic form of pi, {n_p}"
+                                + (f" and {d_p}" if flat else "") + " (wedge angle not decided)")
         return
     for c, wedge, good in verdicts:
-        ctx.check(good, "C14-A1", ctx.site(RINGS, fn, c), f"flat_ring: consecutive rim points are not (2*pi - {d_p})/{n_p} apart",
-                  f"`{au.src(c)[:80]}`: the angle of one wedge is `({wedge.num})/({wedge.den})`; {n_p} wedges must span one turn minus the defect "
-                  f"whatever the number of coverings (with n_cover > 1 the requested defect is otherwise met only by all coverings together)",
-                  note=f"flat_ring: wedge angle (2*pi - {d_p})/{n_p}")
+        ctx.check(good, "C14-A1", ctx.site(RINGS, fn, c), f"{gname}: consecutive rim points are not {wanted} apart",
+                  f"`{au.src(c)[:80]}`: the angle of one sector is `({wedge.num})/({wedge.den})`; {n_p} sectors must span one turn"
+                  + (" minus the defect" if flat else "") + " whatever the number of coverings (with n_cover > 1 the rim otherwise makes a single turn: "
+                  "the coverings do not lie over each other and the angle around the apex is not the requested one)",
+                  note=f"{gname}: wedge angle {wanted}")
+
+
+# ----------------------------------------------------------------------- C14-T1 (orientation decided by a centroid test)
+def _is_centroid(e, mesh_params):
+    """mean position of all the vertices of a caller-supplied mesh: sum(m.vertices) / len(m.vertices), np.mean(m.vertices, axis=0) ..."""
+    def verts(x):
+        return any(isinstance(n, ast.Attribute) and n.attr == "vertices" and isinstance(n.value, ast.Name) and n.value.id in mesh_params
+                   for n in ast.walk(x))
+    if isinstance(e, ast.BinOp) and isinstance(e.op, ast.Div):
+        num = e.left
+        counted = any(isinstance(n, ast.Call) and au.call_tail(n) == "len" for n in ast.walk(e.right)) or \
+            (isinstance(e.right, ast.Attribute) and e.right.attr in ("size", "shape"))
+        if isinstance(num, ast.Call) and au.call_tail(num) in ("sum", "add") and verts(num) and counted:
+            return True
+    if isinstance(e, ast.Call) and au.call_tail(e) in ("mean", "average", "barycenter", "centroid") and verts(e):
+        return True
+    return False
+
+
+def t1_orientation_test(ctx):
+    """a generator that works on a caller-supplied surface (any orientable shape) must not orient its faces with the sign of
+    dot(p - centroid, normal): that criterion tells inside from outside only on a surface that is star-shaped around its centroid"""
+    from ..rules import hi_flow as F
+    for modname in PROC_MODULES:
+        mod = ctx.repo.module(modname)
+        for q, fn in mod.funcs.items():
+            if "." in q:
+                continue
+            mesh_params = {p for p in au.params(fn) if any(isinstance(n, ast.Attribute) and n.attr in ("vertices", "faces", "id_faces", "id_vertices")
+                                                           and isinstance(n.value, ast.Name) and n.value.id == p for n in ast.walk(fn))}
+            if not mesh_params or not any(isinstance(n, ast.Attribute) and n.attr == "faces" for n in ast.walk(fn)):
+                continue
+            fl = F.Flow(fn)
+            # tests that decide a reversal
+            sites = []
+            for st in au.stmts(fn.body):
+                if isinstance(st, ast.If):
+                    flips = [x for x in au.stmts(st.body + st.orelse) if
+                             (isinstance(x, ast.Assign) and isinstance(x.value, ast.Subscript) and isinstance(x.value.slice, ast.Slice)
+                              and au.const(x.value.slice.step) == -1 and x.value.slice.lower is None and x.value.slice.upper is None)
+                             or (isinstance(x, ast.Expr) and isinstance(x.value, ast.Call) and au.call_tail(x.value) == "reverse")
+                             or (isinstance(x, ast.Assign) and isinstance(x.value, ast.Call) and au.call_tail(x.value) in ("reversed", "flip"))]
+                    if flips:
+                        sites.append((st, st.test))
+            for n in au.walk(fn):
+                if isinstance(n, ast.IfExp) and isinstance(n.body, (ast.Tuple, ast.List)) and isinstance(n.orelse, (ast.Tuple, ast.List)) \
+                        and sorted(au.norm(x) for x in n.body.elts) == sorted(au.norm(x) for x in n.orelse.elts) \
+                        and [au.norm(x) for x in n.body.elts] != [au.norm(x) for x in n.orelse.elts]:
+                    sites.append((au.enclosing_stmt(n), n.test))
+            for st, test in sites:
+                r = fl.resolve(test, at=st, keep=tuple(mesh_params))
+                bad = None
+                for c in ast.walk(r):
+                    if isinstance(c, ast.Call) and au.call_tail(c) in ("dot", "vdot", "inner") and len(c.args) == 2:
+                        for a in c.args:
+                            for d in ast.walk(a):
+                                if isinstance(d, ast.BinOp) and isinstance(d.op, ast.Sub) and (_is_centroid(d.right, mesh_params) or _is_centroid(d.left, mesh_params)):
+                                    bad = (c, d)
+                s_ = ctx.site(modname, fn, st)
+                if bad is not None:
+                    ctx.fail("C14-T1", s_, f"{q} orients a generated face by the sign of dot(p - centroid, normal) on a caller-supplied surface",
+                             f"`{au.src(test)[:100]}` resolves to a test on `{au.src(bad[1])[:80]}`: the offset from the centroid of the whole input tells "
+                             f"inside from outside only on a surface that is star-shaped around that centroid; on any other input (a torus, a "
+                             f"concave shape) some faces are reversed and their neighbours are not - the result is not consistently oriented")
+                else:
+                    ctx.ok("C14-T1", s_, f"{q}: a reversal that does not rest on a centroid test")
 
 
 # ----------------------------------------------------------------------- C14-M1
